@@ -1,0 +1,68 @@
+//go:build verif
+
+package xmlenc
+
+import (
+	"crypto/cipher"
+	"sort"
+)
+
+// This file is compiled only with the build tag "verif". It adds read-only accessors and a toy
+// block cipher used by the external verification harness to compare the CBC framing (padding, IV
+// prefix, chaining, element structure) byte for byte with an executable model. It changes no
+// behaviour of the package.
+
+// verifToyBlock is an invertible toy block cipher of arbitrary block size:
+// E(b)[(i+1) mod n] = b[i] + k[i mod len(k)] + 3*i + 1 (mod 256).
+type verifToyBlock struct {
+	key []byte
+	n   int
+}
+
+func (t verifToyBlock) BlockSize() int { return t.n }
+
+func (t verifToyBlock) Encrypt(dst, src []byte) {
+	out := make([]byte, t.n)
+	for i := 0; i < t.n; i++ {
+		out[(i+1)%t.n] = src[i] + t.key[i%len(t.key)] + byte(3*i+1)
+	}
+	copy(dst, out)
+}
+
+func (t verifToyBlock) Decrypt(dst, src []byte) {
+	out := make([]byte, t.n)
+	for i := 0; i < t.n; i++ {
+		out[i] = src[(i+1)%t.n] - t.key[i%len(t.key)] - byte(3*i+1)
+	}
+	copy(dst, out)
+}
+
+// VerifNewCBC returns a CBC block cipher description that uses the toy cipher.
+func VerifNewCBC(keySize int, algorithm string, blockSize int) BlockCipher {
+	return CBC{
+		keySize:   keySize,
+		algorithm: algorithm,
+		cipher: func(k []byte) (cipher.Block, error) {
+			return verifToyBlock{key: append([]byte{}, k...), n: blockSize}, nil
+		},
+	}
+}
+
+// VerifRegistry returns the algorithm identifiers of the registered decrypters and digest methods.
+func VerifRegistry() (decs []string, digests []string) {
+	for k := range decrypters {
+		decs = append(decs, k)
+	}
+	for k := range digestMethods {
+		digests = append(digests, k)
+	}
+	sort.Strings(decs)
+	sort.Strings(digests)
+	return decs, digests
+}
+
+// VerifAppendPadding / VerifStripPadding expose the padding helpers.
+func VerifAppendPadding(buf []byte, blockSize int) []byte { return appendPadding(buf, blockSize) }
+
+// VerifStripPadding exposes stripPadding.
+func VerifStripPadding(buf []byte) ([]byte, error) { return stripPadding(buf) }
